@@ -550,7 +550,7 @@ fn c03(seed: u64, _cases: usize, _model_path: &str) -> serde_json::Value {
     // message it sends (MAC kept) and flips one incoming share the same way, so that its own view agrees with the value the honest parties now hold.
     // If the opening is accepted, every party works with a consistent, correctly MACed, WRONG triple: nothing later can notice, and the AND gate
     // computes (x & y) ^ mask. The victim's input is false, so the only admissible output is false.
-    for n in [2usize, 3] { for (adv, victim) in [(1usize, 0usize), (0, n - 1)] { for (lie_phase, which) in [("faand", 8usize), ("faand", 9), ("dvalue", 16)] { for rep in 0..4 {
+    for n in [2usize, 3] { for (adv, victim) in [(1usize, 0usize), (0, n - 1)] { for (lie_phase, which) in [("faand", 8usize), ("faand", 9), ("dvalue", 16), ("dvalue", 19) /* the LAST d-value of the first bucket (bucket size 5: bits at 16..19) */] { for rep in 0..4 {
         let insts: Vec<Inst> = (0..n).map(|p| Inst { out: Reg(p as u32), op: Op::Input(Input { party: p as u32, input: 0 }) }).chain(std::iter::once(Inst { out: Reg(n as u32), op: Op::And(And(Reg(victim as u32), Reg(adv as u32))) })).collect();
         let c = Circuit { input_regs: vec![1; n], insts, max_reg_count: n + 1, output_regs: vec![Reg(n as u32)], and_ops: 1 };
         let mut inputs: Vec<Vec<bool>> = (0..n).map(|_| vec![r.bool()]).collect(); inputs[victim][0] = false; inputs[adv][0] = true;
@@ -559,8 +559,8 @@ fn c03(seed: u64, _cases: usize, _model_path: &str) -> serde_json::Value {
         let seen = std::rc::Rc::new(std::cell::Cell::new(false)); let seen2 = seen.clone();
         exec::set_recv_rewrite(Some(Box::new(move |at, _from, p, mut d| { if at == adv && p == lie_phase && !seen2.get() && d.len() > which && d[which] <= 1 { seen2.set(true); d[which] ^= 1; } d })));
         let run = exec::run(&c, &args, &cfg, Some(m)); execs += 1; exec::set_recv_rewrite(None);
-        let o = &run.outs[victim]; *dist.entry("field:faand/consistent-lie".into()).or_default() += 1; distinct.insert((n, lie_phase, if which == 8 { "consistent-d" } else if which == 9 { "consistent-e" } else { "consistent-dvalue" }, rep % 2 == 1, adv, victim));
-        let desc = json!({"n": n, "phase": lie_phase, "field": if which == 8 { "d of the first triple, told consistently" } else if which == 9 { "e of the first triple, told consistently" } else { "first bucket d-value, told consistently" }, "adversary": adv, "victim": victim, "victim_is_evaluator": rep % 2 == 0, "inputs": inputs.iter().map(|v| circ::bits(v)).collect::<Vec<_>>()});
+        let o = &run.outs[victim]; *dist.entry("field:faand/consistent-lie".into()).or_default() += 1; distinct.insert((n, lie_phase, if which == 8 { "consistent-d" } else if which == 9 { "consistent-e" } else if which == 16 { "consistent-dvalue" } else { "consistent-dvalue-last" }, rep % 2 == 1, adv, victim));
+        let desc = json!({"n": n, "phase": lie_phase, "field": if which == 8 { "d of the first triple, told consistently" } else if which == 9 { "e of the first triple, told consistently" } else if which == 16 { "first d-value of the first bucket, told consistently" } else { "last d-value of the first bucket, told consistently" }, "adversary": adv, "victim": victim, "victim_is_evaluator": rep % 2 == 0, "inputs": inputs.iter().map(|v| circ::bits(v)).collect::<Vec<_>>()});
         if let Out::Ok(v) = o { if v != &vec![false] { failures.push(json!({"property": "C02", "witness": "C02:consistent-preprocessing-lie", "failure": format!("honest party accepted {} although its own input false forces the output false", circ::bits(v)), "case": desc.clone()})); } }
         if let Out::Panic(msg) = o { failures.push(json!({"property": "C03", "witness": "C03:panic", "failure": format!("victim panicked: {msg}"), "case": desc})); }
     } } } }
@@ -568,7 +568,7 @@ fn c03(seed: u64, _cases: usize, _model_path: &str) -> serde_json::Value {
     // Two AND gates over the input wires, so one gate's rows or both gates' rows can lie (a check folded over gates would let two lies cancel).
     // Keys from the garbler's own taps as in the C08 class: key = x-label ‖ y-label, x offset by delta in rows 2,3, y in rows 1,3; nonce = instruction ‖ row.
     { use chacha20poly1305::{aead::{Aead, KeyInit}, ChaCha20Poly1305, Key, Nonce}; use std::{cell::RefCell, rc::Rc};
-      for n in [2usize, 3] { for (cl, lie_gates) in [("row_share_bit_one_gate", vec![0usize]), ("row_share_bit_two_gates", vec![0usize, 1])] { for (adv, victim) in [(1usize, 0usize), (0, n - 1)] {
+      for n in [2usize, 3] { for (cl, lie_gates) in [("row_share_bit_one_gate", vec![0usize]), ("row_share_bit_two_gates", vec![0usize, 1]), ("row_share_bit_no_macs", vec![0usize]), ("row_share_bit_macs_cut_before_evaluator", vec![0usize])] { for (adv, victim) in [(1usize, 0usize), (0, n - 1)] {
         let mut insts: Vec<Inst> = (0..n).map(|p| Inst { out: Reg(p as u32), op: Op::Input(Input { party: p as u32, input: 0 }) }).collect();
         let (g0, g1) = (n as u32, n as u32 + 1);
         insts.push(Inst { out: Reg(g0), op: Op::And(And(Reg(0), Reg(1))) }); insts.push(Inst { out: Reg(g1), op: Op::And(And(Reg(1), Reg(0))) });
@@ -576,7 +576,7 @@ fn c03(seed: u64, _cases: usize, _model_path: &str) -> serde_json::Value {
         let inputs: Vec<Vec<bool>> = (0..n).map(|_| vec![r.bool()]).collect();
         let args: Vec<PartyArgs> = (0..n).map(|p| PartyArgs { inputs: inputs[p].clone(), p_eval: victim, p_own: p, p_out: (0..n).collect(), tmp_dir: None }).collect();
         let taps: Rc<RefCell<Vec<(String, usize, Vec<u128>)>>> = Default::default(); let (t2, t3) = (taps.clone(), taps.clone());
-        let crafted = Rc::new(std::cell::Cell::new(0usize)); let cr2 = crafted.clone(); let lg = lie_gates.clone(); let nn = n;
+        let crafted = Rc::new(std::cell::Cell::new(0usize)); let cr2 = crafted.clone(); let lg = lie_gates.clone(); let nn = n; let cl2 = cl;
         polytune::verif::set_sink(Some(Box::new(move |k, p, v| if k == "delta" || k == "input_label" { t2.borrow_mut().push((k.to_string(), p, v.to_vec())) })));
         let m: exec::Mutator = Box::new(move |from, to, ph, _k, d| { if from != adv || to != victim || ph != "preprocessed gates" { return Some(d); }
             let t = t3.borrow(); let get = |k: &str| -> Vec<u128> { t.iter().filter(|x| x.0 == k && x.1 == adv).flat_map(|x| x.2.clone()).collect() };
@@ -589,6 +589,8 @@ fn c03(seed: u64, _cases: usize, _model_path: &str) -> serde_json::Value {
                 let mut nonce = [0u8; 12]; nonce[..8].copy_from_slice(&((nn + gi) as u64).to_be_bytes()); nonce[8] = i as u8;
                 let cipher = ChaCha20Poly1305::new(Key::from_slice(&key));
                 if let Ok(pt) = cipher.decrypt(Nonce::from_slice(&nonce), g[i].as_ref()) { let (rb, macs, label): (bool, Vec<u128>, u128) = de(&pt);
+                    // a flipped share whose MAC vector does not reach the evaluator's entry any more (emptied / cut just before it): "no MAC to check" must not mean "accepted"
+                    let macs: Vec<u128> = match cl2 { "row_share_bit_no_macs" => vec![], "row_share_bit_macs_cut_before_evaluator" => macs[..victim.min(macs.len())].to_vec(), _ => macs };
                     if let Ok(ct) = cipher.encrypt(Nonce::from_slice(&nonce), ser(&(!rb, macs, label)).as_ref()) { g[i] = ct; cr2.set(cr2.get() + 1); } } } }
             Some(ser(&gates)) });
         let run = exec::run(&c, &args, &cfg, Some(m)); execs += 1; polytune::verif::set_sink(None); let o = &run.outs[victim];
@@ -662,7 +664,7 @@ fn c04(seed: u64, cases: usize, _model_path: &str) -> serde_json::Value {
     // (phase, byte offsets of Boolean fields to flip, all in one message). Layouts (bincode legacy): Vec<(bool,u128)> = 8 + 17k; Vec<(bool,bool,Mac,Mac)> = 8 + 34k;
     // Vec<(Vec<bool>,Vec<Mac>)> with 4 entries each = 8 + 84k (+8 to the first bit); Vec<(bool,bool)> = 8 + 2k; `fashare ver` (n = 2) = 8 + 25r (+8 to the bit).
     let multi: Vec<(&str, Vec<usize>)> = vec![("faand", vec![8, 9]), ("faand", vec![8, 8 + 34]), ("faand", vec![9, 9 + 34]), ("faand", vec![8, 9, 8 + 34, 9 + 34]),
-        ("fabitn", vec![8, 8 + 17]), ("fabitn", vec![8 + 17 * 5, 8 + 17 * 119]), ("dvalue", vec![16, 17]), ("dvalue", vec![16, 16 + 84]), ("dvalue", vec![16, 17, 18, 19]),
+        ("fabitn", vec![8, 8 + 17]), ("fabitn", vec![8 + 17 * 5, 8 + 17 * 119]), ("dvalue", vec![16, 17]), ("dvalue", vec![16, 16 + 84]), ("dvalue", vec![16, 17, 18, 19]), ("dvalue", vec![19]), ("dvalue", vec![19 + 84]),
         ("haand", vec![8, 9]) /* both bits of one pair: the one the receiver uses is wrong for sure */,
         // `flaand` = Vec<(e bit, u)>: the e bits are unauthenticated but every wrong one makes the LaAND check value non-zero; two wrong ones in ONE bucket
         // (the one-AND circuit has a single bucket) must not cancel
@@ -738,6 +740,35 @@ fn c04(seed: u64, cases: usize, _model_path: &str) -> serde_json::Value {
         let pre_err = match o { Out::Err(e) => e.contains("XorNotZero") || e.contains("CommitmentCouldNotBeOpened") || e.contains("WrongMAC"), _ => false };
         if !pre_err { failures.push(json!({"witness": "C04-e:flaand-commitment-mirrored", "failure": format!("the peer lied about an e bit and echoed the victim's own commitments and openings back: the leaky-AND check passed, the victim went on: {}", short(o)), "case": desc})); }
         if samples.len() < 4 { samples.push(json!({"case": desc, "victim": short(o)})); }
+    }
+    // ---- (a4') RE-COMMITTING rushing peer (two parties): it lies about an `e` bit and, whenever a message of the commit-open rounds of the leaky-AND check
+    // is delivered, uses every check value of the other party that has been SENT by then: it presents that value as its own, under a fresh commitment
+    // with its own id. In the protocol as written the values are sent only after all commitments have been delivered, so the peer's commitment is to
+    // its own (different) value and its opening is refused; a round that reveals a value before the peer's commitment has arrived binds nobody.
+    // Message formats are recognised by element size (32: commitments, 16: values, 48: both together).
+    for victim in [0usize, 1] { let n = 2; let adv = 1 - victim; let c = mk_circ(n);
+        let args: Vec<PartyArgs> = (0..n).map(|p| PartyArgs { inputs: vec![r.bool()], p_eval: 0, p_own: p, p_out: (0..n).collect(), tmp_dir: None }).collect();
+        let hs: std::rc::Rc<std::cell::RefCell<std::collections::HashMap<usize, Vec<u128>>>> = Default::default(); let (hs1, hs2) = (hs.clone(), hs.clone());
+        let lied = std::rc::Rc::new(std::cell::Cell::new(false)); let l2 = lied.clone(); let used = std::rc::Rc::new(std::cell::Cell::new(0u32)); let u2 = used.clone();
+        fn values_of(d: &[u8]) -> Option<Vec<u128>> { if d.len() < 8 { return None; } let k = u64::from_le_bytes(d[..8].try_into().unwrap()) as usize; if k == 0 || (d.len() - 8) % k != 0 { return None; }
+            match (d.len() - 8) / k { 16 => Some((0..k).map(|i| u128::from_le_bytes(d[8 + 16 * i..24 + 16 * i].try_into().unwrap())).collect()), 48 => Some((0..k).map(|i| u128::from_le_bytes(d[8 + 48 * i + 32..8 + 48 * i + 48].try_into().unwrap())).collect()), _ => None } }
+        let m: exec::Mutator = Box::new(move |from, to, p, k, mut d| { if k != 0 { return Some(d); }
+            if p.starts_with("flaand ") { if let Some(v) = values_of(&d) { hs1.borrow_mut().entry(from).or_insert(v); } return Some(d); }
+            if from == adv && to == victim && p == "flaand" && d.len() > 8 && d[8] <= 1 { d[8] ^= 1; l2.set(true); }
+            Some(d) });
+        let seen: std::rc::Rc<std::cell::RefCell<std::collections::HashSet<(usize, String)>>> = Default::default();
+        exec::set_recv_rewrite(Some(Box::new(move |at, from, p, d| { if !p.starts_with("flaand ") || d.len() < 8 || !seen.borrow_mut().insert((at, p.to_string())) { return d; }
+            // both copies of the code are served the same way (the peer's own copy would otherwise notice its own lie and stop)
+            let Some(h) = hs2.borrow().get(&at).cloned() else { return d; };
+            let k = u64::from_le_bytes(d[..8].try_into().unwrap()) as usize; if k != h.len() { return d; }
+            let commit = |x: u128| -> [u8; 32] { let mut b = x.to_be_bytes().to_vec(); b.extend((from as u16).to_be_bytes()); *blake3::hash(&b).as_bytes() };
+            if at == victim { u2.set(u2.get() + 1); }
+            match (d.len() - 8) / k { 32 => ser(&h.iter().map(|x| commit(*x)).collect::<Vec<_>>()), 16 => ser(&h), 48 => ser(&h.iter().map(|x| (commit(*x), *x)).collect::<Vec<_>>()), _ => d } })));
+        let run = exec::run(&c, &args, &RunCfg { cap: 1024, sched: Sched::RoundRobin, keep_payloads: false }, Some(m)); execs += 1; exec::set_recv_rewrite(None);
+        if !lied.get() || used.get() == 0 { *dist.entry("recommit:not-applied".into()).or_default() += 1; continue; }
+        let o = &run.outs[victim]; *dist.entry("recommit:flaand".into()).or_default() += 1; distinct.insert(format!("recommit/{victim}"));
+        let pre_err = match o { Out::Err(e) => e.contains("XorNotZero") || e.contains("CommitmentCouldNotBeOpened"), _ => false };
+        if !pre_err { failures.push(json!({"witness": "C04:flaand-value-revealed-before-commitment", "failure": format!("the peer lied about an e bit and presented the victim's own check value, re-committed under its own id, as soon as that value had been sent: the leaky-AND check passed, the victim went on: {}", short(o)), "case": {"n": n, "victim": victim, "adversary": adv}})); }
     }
     // ---- (a5) the same echo against the aShare consistency check (`fashare comm` / `fashare ver` / `fashare di_bi`) and the coin tossing
     // (`RNG comm` / `RNG ver`): a peer that sends the victim's own messages of these rounds back must be rejected
@@ -1006,6 +1037,12 @@ fn c06(seed: u64, cases: usize, model_path: &str, which: &str) -> serde_json::Va
         for w in 0..129 { if let (Some(mb), Some(sh)) = (masked[w], ws[w]) { share_ones[w] += (mb ^ sh.0 ^ in0[w]) as u64; share_tot[w] += 1; } }
         // ---- message-level tie of the aBit consistency check: the Boolean fields of every `fabitn` message = the Lean model's combinations of the
         // tapped bit string (ALL l + 3·RHO bits, surplus included) under the coefficients it expands from the tapped seed with its own AES-128
+        // ---- what the aShare check opens are the bits of the SACRIFICED shares (the RHO surplus ones, tapped as `ashare_check_shares`), never a share that
+        // is handed to the caller: the bits in the first `fashare ver` message of a party are exactly the tapped sacrificed bits, in order
+        if run_i < 12 { for p in 0..n { let w = 1 + 2 * n;
+            if let (Some(chk), Some(ver)) = (taps.iter().find(|t| t.0 == "ashare_check_shares" && t.1 == p).map(|t| t.2.clone()), run.payloads.iter().find(|(f, t, ph, _)| *f == p && *t == 1 - p && ph == "fashare ver").map(|q| de::<Vec<Vec<u8>>>(&q.3))) {
+                let opened: Vec<bool> = ver.iter().map(|dm| dm.first().copied().unwrap_or(0) != 0).collect(); let sacrificed: Vec<bool> = (0..opened.len()).map(|rr| chk.get(rr * w).copied().unwrap_or(2) == 1).collect();
+                if opened != sacrificed && failures.len() < 3 { failures.push(json!({"witness": "C06:ashare-opens-a-kept-share", "failure": format!("party {p}: the bits opened in its first `fashare ver` message are not the bits of the shares it sacrifices (differing positions: {:?}): a share that is handed on to the protocol had its bit published", (0..opened.len()).filter(|i| opened[*i] != sacrificed[*i]).take(6).collect::<Vec<_>>()), "case": {"run": run_i}})); } } } }
         if which == "C06" && run_i < 12 { for p in 0..n {
             let xs: Vec<&Vec<u128>> = taps.iter().filter(|t| t.0 == "abit_x" && t.1 == p).map(|t| &t.2).collect(); let seeds: Vec<u128> = taps.iter().filter(|t| t.0 == "abit_rseed" && t.1 == p).map(|t| t.2[0]).collect();
             let msgs: Vec<Vec<(bool, u128)>> = run.payloads.iter().filter(|(f, t, ph, _)| *f == p && *t == 1 - p && ph == "fabitn").map(|q| de(&q.3)).collect();
@@ -1230,6 +1267,37 @@ fn c07m(seed: u64, cases: usize, model_path: &str) -> serde_json::Value {
         if lie && noncanon && n == 2 && leaked.iter().any(|x| *x) { failures.push(json!({"property": "C07", "witness": "C07:ashare-noncanonical-bit-leak", "failure": "a check bit sent as the byte 2/3 is read one way by the verification and another way by the choice of the opening: opened XOR the MAC the peer holds equals the honest party's global key (tap)", "positions": lie_positions})); }
         else if lie && n == 2 && !leaked.is_empty() && leaked.iter().all(|x| *x) { failures.push(json!({"property": "C07", "witness": "C07-a:ashare-check-bit-lie", "failure": "a misreported aShare check bit makes the honest party open d0^delta: opened XOR the MAC the peer holds equals the honest party's global key (tap)", "positions": lie_positions})); }
         if samples.len() < 2 { samples.push(json!({"n": n, "lie": lie, "positions_compared": 40})); }
+    }
+    // ---- the same lie by a RE-COMMITTING rushing peer (two parties; see the C04 driver): it lies about an `e` bit and, whenever a message of the commit-open rounds of the leaky-AND check
+    // is delivered, uses every check value of the other party that has been SENT by then: it presents that value as its own, under a fresh commitment
+    // with its own id. In the protocol as written the values are sent only after all commitments have been delivered, so the peer's commitment is to
+    // its own (different) value and its opening is refused; a round that reveals a value before the peer's commitment has arrived binds nobody.
+    // Message formats are recognised by element size (32: commitments, 16: values, 48: both together).
+    for victim in [0usize, 1] { let n = 2usize; let adv = 1 - victim;
+        let insts: Vec<Inst> = (0..n).map(|p| Inst { out: Reg(p as u32), op: Op::Input(Input { party: p as u32, input: 0 }) }).chain(std::iter::once(Inst { out: Reg(n as u32), op: Op::And(And(Reg(0), Reg(1))) })).collect();
+        let c = Circuit { input_regs: vec![1; n], insts, max_reg_count: n + 1, output_regs: vec![Reg(n as u32)], and_ops: 1 };
+        let args: Vec<PartyArgs> = (0..n).map(|p| PartyArgs { inputs: vec![r.bool()], p_eval: 0, p_own: p, p_out: (0..n).collect(), tmp_dir: None }).collect();
+        let hs: std::rc::Rc<std::cell::RefCell<std::collections::HashMap<usize, Vec<u128>>>> = Default::default(); let (hs1, hs2) = (hs.clone(), hs.clone());
+        let lied = std::rc::Rc::new(std::cell::Cell::new(false)); let l2 = lied.clone(); let used = std::rc::Rc::new(std::cell::Cell::new(0u32)); let u2 = used.clone();
+        fn values_of(d: &[u8]) -> Option<Vec<u128>> { if d.len() < 8 { return None; } let k = u64::from_le_bytes(d[..8].try_into().unwrap()) as usize; if k == 0 || (d.len() - 8) % k != 0 { return None; }
+            match (d.len() - 8) / k { 16 => Some((0..k).map(|i| u128::from_le_bytes(d[8 + 16 * i..24 + 16 * i].try_into().unwrap())).collect()), 48 => Some((0..k).map(|i| u128::from_le_bytes(d[8 + 48 * i + 32..8 + 48 * i + 48].try_into().unwrap())).collect()), _ => None } }
+        let m: exec::Mutator = Box::new(move |from, to, p, k, mut d| { if k != 0 { return Some(d); }
+            if p.starts_with("flaand ") { if let Some(v) = values_of(&d) { hs1.borrow_mut().entry(from).or_insert(v); } return Some(d); }
+            if from == adv && to == victim && p == "flaand" && d.len() > 8 && d[8] <= 1 { d[8] ^= 1; l2.set(true); }
+            Some(d) });
+        let seen: std::rc::Rc<std::cell::RefCell<std::collections::HashSet<(usize, String)>>> = Default::default();
+        exec::set_recv_rewrite(Some(Box::new(move |at, from, p, d| { if !p.starts_with("flaand ") || d.len() < 8 || !seen.borrow_mut().insert((at, p.to_string())) { return d; }
+            // both copies of the code are served the same way (the peer's own copy would otherwise notice its own lie and stop)
+            let Some(h) = hs2.borrow().get(&at).cloned() else { return d; };
+            let k = u64::from_le_bytes(d[..8].try_into().unwrap()) as usize; if k != h.len() { return d; }
+            let commit = |x: u128| -> [u8; 32] { let mut b = x.to_be_bytes().to_vec(); b.extend((from as u16).to_be_bytes()); *blake3::hash(&b).as_bytes() };
+            if at == victim { u2.set(u2.get() + 1); }
+            match (d.len() - 8) / k { 32 => ser(&h.iter().map(|x| commit(*x)).collect::<Vec<_>>()), 16 => ser(&h), 48 => ser(&h.iter().map(|x| (commit(*x), *x)).collect::<Vec<_>>()), _ => d } })));
+        let run = exec::run(&c, &args, &RunCfg { cap: 1024, sched: Sched::RoundRobin, keep_payloads: false }, Some(m)); execs += 1; exec::set_recv_rewrite(None);
+        if !lied.get() || used.get() == 0 { continue; }
+        let o = &run.outs[victim]; distinct.insert((n, false, 100 + victim));
+        let pre_err = match o { Out::Err(e) => e.contains("XorNotZero") || e.contains("CommitmentCouldNotBeOpened"), _ => false };
+        if !pre_err { failures.push(json!({"property": "C07", "witness": "C07:laand-e-lie-leak-undetected", "failure": format!("a rushing peer lied about an e bit and presented the victim's own check value under a fresh commitment: the victim raised no error of its own although the value it opened, XORed with the peer's, is its global key: {}", short(o)), "victim": victim})); }
     }
     // ---- leaky-AND: a peer lies about its (unauthenticated) `e` bits in `flaand`; the victim then opens its check value H in `flaand hash`.
     // Pooling what the victim sent with what the peer holds: does H_victim[j] ^ H_peer[j] equal the victim's global key?
